@@ -166,7 +166,7 @@ def target_app(log):
 def scenario_app(static_dir, variant, tlog):
     from clastic import Application, Response, POST, RerouteWSGI, render_basic
     from clastic.render import render_json
-    from clastic.errors import NotFound, Forbidden
+    from clastic.errors import NotFound, Forbidden, HTTPException, BadRequest
     from clastic.static import StaticApplication
     from clastic.meta import MetaApplication
     from clastic.middleware.compress import GzipMiddleware
@@ -190,6 +190,9 @@ def scenario_app(static_dir, variant, tlog):
 
     def reroute_raise():
         raise RerouteWSGI(target)
+
+    def raise_bare():
+        raise HTTPException('raised, without a code of its own')
     routes = [('/resp', lambda: Response(b'hello world', mimetype='text/plain')),
               ('/empty', lambda: Response(b'')),
               ('/stream', lambda: Response(gen(), mimetype='text/plain')),
@@ -198,6 +201,10 @@ def scenario_app(static_dir, variant, tlog):
               ('/text', lambda: u'plain \xe9 text', render_basic),
               ('/branch/', lambda: Response('branch')),
               ('/dir/<name>/', lambda name: Response('dir')),
+              # errors built in unusual but legitimate ways: no status code of its own, a message of the application's
+              ('/bare_exc', lambda: HTTPException('an error without a code of its own')),
+              ('/raise_bare_exc', raise_bare),
+              ('/own_message', lambda: BadRequest('detail', message=u'Please try again \u2603')),
               ('/redir', lambda: redirect('/resp')),
               ('/raise404', raise404), ('/ret403', ret403), ('/boom', boom),
               ('/nonresp', lambda: 'just a string'),
@@ -221,6 +228,7 @@ PATHS = ['/resp', '/empty', '/stream', '/ctx', '/ctx?format=json', '/json', '/te
          '/static/missing', '/static/../x', '/_meta/', '/_meta/json/', '/reroute', '/reroute_raise', '/unknown/url', '/',
          # slash redirects whose Location has to carry unusual decoded characters (header values must stay valid)
          '/dir/plain', '/dir/a%20b', '/dir/%01x', '/dir/x%7Fy', '/dir/caf%C3%A9', '/dir/q%3Fr%23s', '/branch?x=%0Ay',
+         '/bare_exc', '/raise_bare_exc', '/own_message',
          '/item/5', '/item/+ 5', '/item/abc', '/ratio/- .5/1/+ 2', '/ratio/1e5/1/2', '/item/' + '9' * 5000]
 HEADERS = [{}, {'Accept': 'text/html'}, {'Accept': 'application/json'}, {'Accept-Encoding': 'gzip'},
            {'Accept': 'application/xml', 'Accept-Encoding': 'gzip, deflate'}]
@@ -413,9 +421,25 @@ def leg_reroute(run):
             start_response(status_, list(headers_))
             return [] if environ['REQUEST_METHOD'] == 'HEAD' else list(body_)
         return target
+    # WSGI callables come in many shapes: a function with unconventional parameter names, a callable object, a partial, a
+    # validator-wrapped application
+    import functools
+    from wsgiref.validate import validator
+
+    def shape(t, k):
+        if k == 0:
+            return t
+        if k == 1:
+            return lambda env, sr: t(env, sr)
+        if k == 2:
+            class Obj(object):
+                def __call__(self, e, s_):
+                    return t(e, s_)
+            return Obj()
+        return functools.partial(lambda extra, environ, start_response: t(environ, start_response), 'x')
     routes = []
     for name in targets:
-        t = make_target(name)
+        t = shape(make_target(name), sorted(targets).index(name) % 4)
         routes.append(('/as_endpoint/%s/<p*>' % name, RerouteWSGI(t)))
 
         def raiser(t=t):
